@@ -69,7 +69,7 @@ Fixpoint wf_hist_x (ops : list xop) : bool :=
 (* every repair in force except the one that makes a rejected pause atomic *)
 Definition rep_nonatomic : qrep :=
   {| r_cancel_once := true; r_trim_log := true; r_complete_reset := true; r_grouped_mod := true;
-     r_empty_reset := true; r_pause_atomic := false |}.
+     r_empty_reset := true; r_pause_atomic := false; r_empty_guard := true |}.
 
 (* the history without its rejected pauses (judged against the running state) *)
 Fixpoint drop_rejected (R : qrep) (q : qstate) (ops : list xop) : list xop :=
